@@ -2,7 +2,7 @@
 //! with `raw`, followed by the ground truth (`G` lines), then read completely and mutated a little through the library.
 use super::*;
 use crate::clock::ClockMode;
-use crate::imgbuild::{random_volume, Built, Node};
+use crate::imgbuild::{random_volume_kind, Built, Node, VolKind};
 use crate::script::Whence;
 
 fn vol_of(b: &Built) -> VolCfg {
@@ -39,8 +39,8 @@ fn addressable(n: &Node, path: &str, out: &mut Vec<(String, bool, usize)>) {
     }
 }
 
-fn one(id: String, seed: u64, bits: u8, rng: &mut SplitMix64, sink: &mut Sink, fr: &mut BTreeMap<String, u64>) {
-    let built = random_volume(rng, bits);
+fn one(id: String, seed: u64, bits: u8, kind: VolKind, rng: &mut SplitMix64, sink: &mut Sink, fr: &mut BTreeMap<String, u64>) {
+    let built = random_volume_kind(rng, bits, kind);
     for (k, v) in &built.freedoms {
         *fr.entry(k.clone()).or_default() += v;
     }
@@ -56,7 +56,8 @@ fn one(id: String, seed: u64, bits: u8, rng: &mut SplitMix64, sink: &mut Sink, f
     }
     let mut objs = Vec::new();
     addressable(&built.root, "", &mut objs);
-    // ---- read everything
+    // ---- read everything (the status first: it must report what the boot sector and FAT[1] say)
+    cx.step(Op::Status);
     cx.step(Op::List(0));
     for (p, is_dir, _) in &objs {
         if *is_dir {
@@ -70,6 +71,14 @@ fn one(id: String, seed: u64, bits: u8, rng: &mut SplitMix64, sink: &mut Sink, f
             if cx.step(Op::OpenFile { d: 0, path: p.clone().into_bytes(), new: f }).is_ok() {
                 cx.step(Op::ReadAll(f));
                 cx.step(Op::Extents(f));
+                if kind == VolKind::Max && p.starts_with("TOPFILE") {
+                    // walk the chain from the start again, into its later clusters
+                    let cs = built.geo.cs() as i64;
+                    cx.step(Op::Seek { f, whence: Whence::Start, n: 2 * cs + 1 });
+                    cx.step(Op::Read { f, n: 40 });
+                    cx.step(Op::Seek { f, whence: Whence::End, n: -3 });
+                    cx.step(Op::Read { f, n: 10 });
+                }
                 cx.step(Op::DropF(f));
             }
         }
@@ -88,6 +97,44 @@ fn one(id: String, seed: u64, bits: u8, rng: &mut SplitMix64, sink: &mut Sink, f
     }
     // ---- a few mutations
     let cs = built.geo.cs() as usize;
+    if kind == VolKind::Max {
+        // the only free clusters are among the topmost ones: growth links INTO cluster numbers >= 0xFF0 / 0xFFF0
+        let f = cx.new_f();
+        if cx.step(Op::OpenFile { d: 0, path: b"TOPFILE1.BIN".to_vec(), new: f }).is_ok() {
+            cx.step(Op::Seek { f, whence: Whence::End, n: 0 });
+            cx.step(Op::WriteAll { f, data: content(rng, cs + 5) });
+            cx.step(Op::Seek { f, whence: Whence::Start, n: 0 });
+            cx.step(Op::ReadAll(f));
+            cx.step(Op::Extents(f));
+            cx.step(Op::DropF(f));
+        }
+        // new names in the high directory until it has grown by a cluster
+        for i in 0..9 {
+            let f = cx.new_f();
+            let p = format!("TOPDIR/a new long name number {}.txt", i);
+            if cx.step(Op::CreateFile { d: 0, path: p.into_bytes(), new: f }).is_ok() {
+                cx.step(Op::DropF(f));
+            } else {
+                break;
+            }
+        }
+        let d = cx.new_d();
+        if cx.step(Op::OpenDir { d: 0, path: b"TOPDIR".to_vec(), new: d }).is_ok() {
+            cx.step(Op::List(d));
+            cx.step(Op::DropD(d));
+        }
+        cx.step(Op::Stats);
+        let f = cx.new_f();
+        if cx.step(Op::OpenFile { d: 0, path: b"TOPFILE1.BIN".to_vec(), new: f }).is_ok() {
+            cx.step(Op::Seek { f, whence: Whence::Start, n: cs as i64 + 3 });
+            cx.step(Op::Truncate(f));
+            cx.step(Op::Seek { f, whence: Whence::Start, n: 0 });
+            cx.step(Op::ReadAll(f));
+            cx.step(Op::DropF(f));
+        }
+        cx.step(Op::Remove { d: 0, path: b"TOPFILE2.BIN".to_vec() });
+        cx.step(Op::Stats);
+    }
     let dirs: Vec<&(String, bool, usize)> = objs.iter().filter(|o| o.1).collect();
     let files: Vec<&(String, bool, usize)> = objs.iter().filter(|o| !o.1).collect();
     let target_dir = if dirs.is_empty() { String::new() } else { rng.pick(&dirs).0.clone() };
@@ -136,6 +183,23 @@ fn one(id: String, seed: u64, bits: u8, rng: &mut SplitMix64, sink: &mut Sink, f
     if !cx.dead {
         cx.step(Op::Unmount);
     }
+    // ---- sometimes a third session that is abandoned, then what the next mount reports
+    if !cx.dead && rng.chance(1, 3) && cx.mount().is_ok() {
+        cx.step(Op::Status);
+        let f = cx.new_f();
+        if cx.step(Op::CreateFile { d: 0, path: b"abandoned.txt".to_vec(), new: f }).is_ok() {
+            cx.step(Op::WriteAll { f, data: content(rng, 12) });
+            if rng.chance(1, 2) {
+                cx.step(Op::DropF(f));
+            }
+        }
+        cx.step(Op::Forget);
+        if cx.mount().is_ok() {
+            cx.step(Op::Status);
+            cx.step(Op::List(0));
+            cx.step(Op::Unmount);
+        }
+    }
     cx.finish(sink);
 }
 
@@ -149,7 +213,14 @@ pub fn run(tier: Tier, seed: u64, rng: &mut SplitMix64, n_override: Option<u64>,
             5..=7 => 16,
             _ => 32,
         };
-        one(hist_id("foreign", seed, i), seed, bits, &mut r, sink, &mut fr);
+        // maximal FAT12 / FAT16 volumes with chains through the topmost clusters; full FAT32 volumes
+        let kind = match (bits, r.below(20)) {
+            (12, 0..=2) => VolKind::Max,
+            (16, 0) => VolKind::Max,
+            (32, 0..=3) => VolKind::Full,
+            _ => VolKind::Normal,
+        };
+        one(hist_id("foreign", seed, i), seed, bits, kind, &mut r, sink, &mut fr);
     }
     let line: Vec<String> = fr.iter().map(|(k, v)| format!("{}={}", k, v)).collect();
     sink.comment(&format!("# freedoms volumes={} {}", n, line.join(" ")));
